@@ -5,7 +5,7 @@ THEOREMS = ["C11_verify_total", "C11_unauthentic_input_fails_cleanly", "C11_stru
 
 
 def run(ck):
-    ck.prove(["Properties_C11", "Properties_SrcIO", "Properties_Src2", "Properties_SrcSeq", "Properties_SrcE2E", "SrcRun5"], THEOREMS + ["SRC_loads", "SRC_export", "SRC_verify", "SRC_verify_file_is_sequential", "SRC_execute_verify_is_model"])
+    ck.prove(["Properties_C11", "Properties_SrcIO", "Properties_Src2", "Properties_SrcSeq", "Properties_SrcE2E", "Properties_SrcE2Ed", "SrcRun5"], THEOREMS + ["SRC_loads", "SRC_export", "SRC_verify", "SRC_verify_file_is_sequential", "SRC_execute_verify_is_model", "SRC_execute_decrypt_rejects_what_verify_rejects"])
     exe = small_driver(ck)
     env = small_env(ck)
     big = ck.tier == "thorough"
